@@ -268,21 +268,32 @@ def run_cases(R, mp, triples, thorough, light=False):
     if pre:
         outs = cc.run_impl([("pre", td, v, rest) for td, v, rest in pre], fn=oracle_prefixed)
         check_prefixed(R, pre, outs)
-    # struct: dict vs positional
+    # struct: a dict is read by member name — member order, any other order, extra keys and the
+    # positional sequence all give the same bytes (plain Struct, Revision, nested ones)
     sd = []
     for td, v, kind in triples:
-        if td[0] == "struct" and td[1] and len(set(n for n, _ in td[1])) == len(td[1]):
-            vals = [v[n] for n, _ in td[1]] if isinstance(v, dict) and all(n in v for n, _ in td[1]) else (list(v) if isinstance(v, list) and len(v) == len(td[1]) else None)
-            if vals is not None:
-                sd.append((td, dict(zip([n for n, _ in td[1]], vals)), vals))
-    o1 = cc.run_impl([("enc", td, d) for td, d, _ in sd])
-    o2 = cc.run_impl([("enc", td, l) for td, _, l in sd])
-    for (td, d, l), a, b in zip(sd, o1, o2):
+        ms = td[1] if td[0] == "struct" else ((("major", None), ("minor", None)) if td == ("named", "Revision") else None)
+        if not ms or len(set(n for n, _ in ms)) != len(ms):
+            continue
+        names = [n for n, _ in ms]
+        vals = ([v[n] for n in names] if isinstance(v, dict) and all(n in v for n in names)
+                else (list(v) if isinstance(v, list) and len(v) == len(ms) else None))
+        if vals is not None:
+            d = dict(zip(names, vals))
+            sd.append((td, d, cc.scramble_dict(rng, d), vals))
+    o1 = cc.run_impl([("enc", td, d) for td, d, _, _ in sd])
+    o2 = cc.run_impl([("enc", td, l) for td, _, _, l in sd])
+    o3 = cc.run_impl([("enc", td, p) for td, _, p, _ in sd])
+    cc.corr(R, mp, [("enc", td, p) for td, _, p, _ in sd if cc.modelable(p)], stream="scrambled-dict")
+    for (td, d, pd, l), a, b, c in zip(sd, o1, o2, o3):
         R.evaluations += 1
-        R.count("oracle_outcome", "dict-vs-positional")
+        R.count("oracle_outcome", "dict-vs-positional-vs-scrambled")
         if a != b:
             _fail(R, "struct encodes differently from a dict and from the positional sequence", case_json(td, d, b""), list(a), list(b),
                   "struct-dict-positional")
+        if a != c:
+            _fail(R, "struct encodes differently from a dict in another key order / with an extra key", case_json(td, pd, b""), list(c), list(a),
+                  "struct-dict-by-name")
 
 
 def run(R, escalate=False):
